@@ -24,6 +24,7 @@ type Profile struct {
 	DoneCalls                int  // percentage: calls on a finished transaction
 	Merge                    int
 	WideInts                 bool
+	ScanHeavy                bool
 }
 
 var defBuckets = []string{"b1", "b2", "b"}
@@ -129,7 +130,11 @@ func (g *Gen) kvOp(write bool) {
 	if !g.p.ReadAfterWrite && g.wrote[g.skey("kv", b)] {
 		return
 	}
-	switch g.r.Intn(8) {
+	sel := g.r.Intn(8)
+	if g.p.ScanHeavy && sel < 4 {
+		sel = 4 + g.r.Intn(4)
+	}
+	switch sel {
 	case 0, 1:
 		g.add("get %s %s", hb, g.hpick(g.p.Keys))
 	case 2:
@@ -146,7 +151,7 @@ func (g *Gen) kvOp(write bool) {
 	case 4:
 		g.add("pscan %s %s 0 -1", hb, hx([]byte(g.prefix())))
 	case 5:
-		g.add("pscan %s %s %d %d", hb, hx([]byte(g.prefix())), g.r.Range(0, 4), g.r.Range(0, 4))
+		g.add("pscan %s %s %d %d", hb, hx([]byte(g.prefix())), g.r.Range(0, 5), g.r.Range(-1, 5))
 	case 6:
 		g.add("psscan %s %s %s 0 %d", hb, hx([]byte(g.prefix())), hx([]byte(regexes[g.r.Intn(len(regexes))])), []int{-1, 1, 2, 3}[g.r.Intn(4)])
 	case 7:
@@ -162,7 +167,7 @@ func (g *Gen) prefix() string {
 func (g *Gen) listOp(write bool) {
 	b := g.pick(g.p.Buckets)
 	hb := hx([]byte(b))
-	k := g.hpick(g.p.Keys[:4])
+	k := g.hpick(firstN(g.p.Keys, 4))
 	if g.r.Chance(1, 25) {
 		k = hx([]byte("a|b"))
 	}
@@ -232,7 +237,7 @@ func (g *Gen) setOp(write bool) {
 	b := g.pick(g.p.Buckets)
 	b2 := g.pick(g.p.Buckets)
 	hb, hb2 := hx([]byte(b)), hx([]byte(b2))
-	k, k2 := g.hpick(g.p.Keys[:3]), g.hpick(g.p.Keys[:3])
+	k, k2 := g.hpick(firstN(g.p.Keys, 3)), g.hpick(firstN(g.p.Keys, 3))
 	if write {
 		if !g.p.ReadAfterWrite && (g.wrote[g.skey("set", b)] || g.wrote[g.skey("set", b2)]) {
 			if g.r.Bool() {
@@ -397,12 +402,12 @@ func obsCalls(p Profile) []string {
 			}
 		}
 		if p.WList > 0 {
-			for _, k := range p.Keys[:4] {
+			for _, k := range firstN(p.Keys, 4) {
 				c = append(c, "lrange "+hb+" "+hx([]byte(k))+" 0 -1", "lsize "+hb+" "+hx([]byte(k)))
 			}
 		}
 		if p.WSet > 0 {
-			for _, k := range p.Keys[:3] {
+			for _, k := range firstN(p.Keys, 3) {
 				c = append(c, "smembers "+hb+" "+hx([]byte(k)), "shaskey "+hb+" "+hx([]byte(k)))
 			}
 		}
@@ -506,4 +511,11 @@ func runHistory(st *St, p Profile, open string, body []string) (results []string
 	}
 	st.closeQuiet()
 	return results
+}
+
+func firstN(l []string, n int) []string {
+	if len(l) < n {
+		return l
+	}
+	return l[:n]
 }
